@@ -5,7 +5,7 @@
    the implementation, checks/C08.py) - C08_round_trip_partial. *)
 From Coq Require Import ZArith List Bool Permutation.
 From Ckl Require Import Prelude.PyPrelude Prelude.LexPrelude Gen.LexGen Model.LexRun Model.Values Model.Arith Model.Sorting Model.Render
-  Proofs.PermProofs Proofs.RenderProofs Proofs.RenderCanon.
+  Proofs.PermProofs Proofs.RenderProofs Proofs.RenderInt Proofs.RenderCanon.
 Import ListNotations.
 Open Scope Z_scope.
 
@@ -28,6 +28,11 @@ Print Assumptions C08_map_canonical.
 Theorem C08_int_numeral : forall n, 0 <= n -> digits_value 10 (int_str n) = n.
 Proof. exact int_numeral_round_trip. Qed.
 Print Assumptions C08_int_numeral.
+
+(* ... and for EVERY n >= 0 the numeral scans back, through the generated scanner step, to one int token with the same digits *)
+Theorem C08_int_literal_round_trip : forall n, 0 <= n -> lex (int_str n) = LexOk [mk_tok (int_str n) 3 1 1].
+Proof. exact int_literal_round_trip. Qed.
+Print Assumptions C08_int_literal_round_trip.
 
 Theorem C08_int_numeral_negative : forall n, n < 0 -> int_str n = 45 :: int_str (- n).
 Proof. exact int_numeral_negative. Qed.
